@@ -111,7 +111,12 @@ def check_morris(chk, m, name, order, L, R, CUR):
             f = slot_null_fact(p, e.ptr)
             if e.val == ("null",):
                 n_unthread += 1
-                prov = search_provenance(fn, m, ptr_parts(e.ptr)[0], L, R)
+                owner = ptr_parts(e.ptr)[0]
+                prov = search_provenance(fn, m, owner, L, R)
+                if prov is not True and owner[0] == "call":
+                    chk.unknown("M1.unthread-provenance", sid, "the node whose link is reset is the result of %s(), which is not "
+                                "summarised: whether it is the in-order predecessor is not decided" % owner[1], e.inst.loc)
+                    continue
                 chk.ob("M1.unthread-provenance", sid, prov is True,
                        "the link that is reset was reached by the predecessor search (prev = curr->left, then prev = prev->right ...): %s" %
                        ("yes" if prov is True else "NO - %s; a link found any other way may be a genuine right child, which would be "
